@@ -224,7 +224,7 @@ theorem judge_accepts_roundtrip (sl : Bytes) (hs : List (Bytes × Bytes)) (src :
     intro n hn
     have := hrt.namesSub n (by simpa [observe] using hn)
     simp only [Bool.or_eq_true, List.contains_eq_mem, decide_eq_true_eq]
-    exact this
+    exact Or.inl this
   case sup =>
     rw [List.all_eq_true]
     intro p hp
